@@ -122,7 +122,8 @@ CHECKS = {
     technique="Lean 4 proof (the store after any interleaving of writers with disjoint directories equals the sequential run: locality of append effects + projection argument) + real multi-process runs under strace compared with the single-process run, M-TREE and the recount oracle",
     text="C09_interleaving_eq_sequential, C09_writer_footprint, C09_multiwriter_eq_sequential, C09_no_shared_file. write_multiprocessing runs with real worker processes (1-4 and cpu_count+2 writers, uneven loads, "
          "idle writers, seeded delays); result must equal the single_process run, be exact (recount, check()), keep each writer's order, return values in argument order; strace -f gives per-process write sets "
-         "which must be pairwise disjoint and inside the writer's own directory.",
+         "which must be pairwise disjoint and inside the writer's own directory."
+         " C09Src.lean re-checks on the statement order extracted from the current source that the writers' directory names come from uuid4 (not from a process id, counter, core count or clock), that every returned filler's infos are collected without a comparison in between and merged by one write_config; one run makes every pool worker but the first slow to start, so that one process runs several writers in turn.",
     note="multiprocessing.Pool (ordered imap, pickling) is a specified external; relative speeds are perturbed by delays, not controlled.",
     ref="DESIGN.md §5 C09"),
  "C12": dict(
@@ -171,6 +172,7 @@ CHECKS = {
          "Shards are deleted / emptied / overwritten with garbage / truncated at the first, middle and last position; every interface x shuffle on/off x file_parallelism runs under a 60 s alarm and must raise; "
          "a damage counts only if the format library itself (flatbuffers / numpy / TFRecord reader, independent of sedpack's iteration code) rejects the file. The lazy pool with a failing loader runs under the deterministic scheduler."
          " Rust worker panics: the cargo harness runs parallel_map with a function panicking on one item (every position x 1/2/3/8 threads); the pass must raise with exactly the results before that item; the channel operations recorded by the SEDPACK_VERIF hook, plus the consumer's failing next(), are replayed on M-PMAP's fault-aware step (pmapfault endpoint) and must leave the model failed with the same output (C07_rust_dead_worker_is_reported).",
+         " C07Src.lean re-checks on the statement order extracted from the current source that no iteration interface contains an exception handler at all, that the pool's consumer re-raises (after the reset) and that the worker forwards what it caught; damage kinds include zero-filled and 0xFF-filled files, with the weaker demand (every example of the undamaged shards) when the format library reads the damaged file without complaint.",
     note="Executor / asyncio / tf.data error propagation and Rust panic unwinding are specified externals; bounded time is a watchdog at run time and a step bound (mu) in the model.",
     ref="DESIGN.md §5 C07"),
 }
